@@ -182,8 +182,10 @@ def build_evidence(prop, cfg, tier, seed, units, kres, vres, violations, known_h
     v_units = [u for u in units if u["engine"] == "verus"]
     proof_k = [u for u in k_units if u["kind"] in ("contract", "complete")]
     bounded_k = [u for u in k_units if u["kind"] == "bounded"]
-    v_obl = sum(1 for u in v_units)
-    v_ok = sum(1 for u in v_units if u.get("status") == "verified")
+    usum = (vres or {}).get("unit_summary", [])
+    # Verus counts one obligation bundle per exec/proof function it checks (extracted functions + lemmas)
+    v_obl = sum(u["verus_verified"] + u["verus_errors"] for u in usum) if usum else sum(1 for u in v_units)
+    v_ok = sum(u["verus_verified"] for u in usum) if usum else sum(1 for u in v_units if u.get("status") == "verified")
     pk_obl = sum(u.get("checks", 0) - u.get("unreachable", 0) for u in proof_k)
     pk_ok = sum(u.get("checks", 0) - u.get("unreachable", 0) - max(0, u.get("failed", 0) - u.get("expected_failures", 0)) for u in proof_k)
     b_checks = sum(u.get("checks", 0) for u in bounded_k)
@@ -234,6 +236,7 @@ def build_evidence(prop, cfg, tier, seed, units, kres, vres, violations, known_h
         unchecked=cfg.get("unchecked", []),
         vacuity=dict(covers_satisfied=sum(u.get("covers_sat", 0) for u in k_units), covers_total=sum(u.get("covers_total", 0) for u in k_units),
                      verus_probes=vres.get("probes") if vres else None),
+        verus_units=usum,
         undecided=undecided[:10],
         known_findings=[k.get("text") for k, _ in known_hits],
         violation_obligations=[v["obligation"] for v in violations],
